@@ -409,3 +409,71 @@ for _ti in range(6):
                 body_fresh_converters(_ti, _fb, _sk, 1)
             except Exception:
                 pass
+
+
+# ------------------------------------------------------------------ converted keys / elements / enum values that are not hashable
+
+class ETup(enum.Enum):
+    A = (1, 2)
+    B = (3, (4, 5))
+
+
+T_UNH = (ETup, t.Dict[t.List[int], int], t.Dict[t.Tuple[int, t.List[int]], int], t.Dict[t.Set[int], int],
+         t.Set[t.Tuple[int, t.List[int]]], t.FrozenSet[t.List[int]], t.Dict[t.Tuple[int, ...], int], t.List[ETup],
+         t.Dict[ETup, int], t.Union[ETup, None], t.Dict[t.Union[int, t.List[int]], int])
+for _ty in T_UNH:
+    try:
+        make_converter(_ty)
+    except Exception:
+        pass
+
+
+def unh_value(vk, i):
+    """interchange values whose image under the member types above contains a list / set / dict where a hash is needed"""
+    if vk == 0:
+        return [1, 2]
+    elif vk == 1:
+        return [3, [4, 5]]
+    elif vk == 2:
+        return [i, {}]
+    elif vk == 3:
+        return {(1, 2): i}
+    elif vk == 4:
+        return {(i, (2, 3)): 5}
+    elif vk == 5:
+        return [[i, [2]]]
+    elif vk == 6:
+        return {(): 1, (i,): 2}
+    elif vk == 7:
+        return [[1, 2], [3, [4, 5]]]
+    elif vk == 8:
+        return {(3, (4, 5)): i}
+    else:
+        return [[i]]
+
+
+@obligation(pre="0 <= ti < %d and 0 <= vk <= 9" % len(T_UNH), witnesses=(0, -1), timeout=200)
+def body_unhashable_image(ti: int, vk: int, i: int) -> int:
+    """a key / set element / enum value whose converted image is unhashable (a list inside a tuple, a set, a dict) is a rejection, not a raw TypeError"""
+    n = 0
+    ty = T_UNH[0]
+    for x in T_UNH:
+        if n == ti:
+            ty = x
+        n += 1
+    v = unh_value(vk, cint(i))
+    try:
+        pane.from_data(v, ty)
+    except ConvertError:
+        return -1
+    except Exception as e:
+        return classify(e)
+    return 0
+
+
+for _ti in range(len(T_UNH)):
+    for _vk in range(10):
+        try:
+            body_unhashable_image(_ti, _vk, 1)
+        except Exception:
+            pass
